@@ -77,6 +77,17 @@ var redirectNames = map[string]string{
 	"strings.TrimPrefix":                                  "verifStubTrimPrefix",
 	"bytes.Equal":                                         "verifStubBytesEqual",
 	"encoding/json.Marshal":                               "verifStubJSONMarshal",
+	"encoding/json.Unmarshal":                             "verifStubJSONUnmarshal",
+	"(time.Time).Format":                                  "verifStubTimeFormat",
+	"time.Parse":                                          "verifStubTimeParse",
+	"io/ioutil.ReadAll":                                   "verifStubReadAll",
+	"io.ReadAll":                                          "verifStubReadAll",
+	"(*sync.Pool).Get":                                    "verifStubPoolGet",
+	"(*sync.Map).Load":                                    "verifStubSyncMapLoad",
+	"(*sync.Map).Store":                                   "verifStubSyncMapStore",
+	"(*sync.Map).LoadOrStore":                             "verifStubSyncMapLoadOrStore",
+	"(*sync.Map).Delete":                                  "verifStubSyncMapDelete",
+	"(*sync.Pool).Put":                                    "verifStubPoolPut",
 	"strconv.ParseFloat":                                  "verifStubParseFloat",
 	"strconv.FormatFloat":                                 "verifStubFormatFloat",
 }
